@@ -188,6 +188,11 @@ def builds_identity(c):
         return True
     if c["k"] == "Annot" or (c["k"] in ("Transpose", "Adjoint") and c.get("via") == "fn"):
         return builds_identity(c["arg"])
+    if c["k"] == "Routine":  # (inv / pow / sqrt ... of an Identity hand back an Identity object)
+        try:
+            return isinstance(B._build(c), cola.ops.Identity)
+        except Exception:  # noqa
+            return False
     return False
 
 
